@@ -7,6 +7,33 @@ import Influx.Spec.C43
 namespace Influx.DBRP
 open Influx.Spec.C43
 
+/-- the decision of `filterFunc` spelled out -/
+def filterFuncSpec (m : Mapping) (f : Filter) : Bool :=
+  (f.ID.isNone || f.ID == some m.ID) &&
+  (f.OrgID.isNone || f.OrgID == some m.OrganizationID) &&
+  (f.BucketID.isNone || f.BucketID == some m.BucketID) &&
+  (f.Database.isNone || f.Database == some m.Database) &&
+  (f.RetentionPolicy.isNone || f.RetentionPolicy == some m.RetentionPolicy) &&
+  (f.Default.isNone || f.Default == some m.Default) &&
+  (f.Virtual.isNone || f.Virtual == some m.Virtual)
+
+theorem go_conj {α : Type} [DecidableEq α] (x : Option α) (y : α) :
+    Go.or (some x.isNone) (Go.eq (Go.deref x) (some y)) = some (x.isNone || x == some y) := by
+  cases x with
+  | none => simp
+  | some v => simp [Go.eq]
+
+/-- the generated `filterFunc` never dereferences nil and decides `filterFuncSpec` -/
+theorem generated_filterFunc (m : Mapping) (f : Filter) :
+    Influx.Generated.DBRP.filterFunc m f = some (filterFuncSpec m f) := by
+  unfold Influx.Generated.DBRP.filterFunc filterFuncSpec
+  simp only [go_conj, Go.and_some_some]
+
+theorem filterFunc_eq_spec (m : Mapping) (f : Filter) : filterFunc m f = filterFuncSpec m f := by
+  unfold filterFunc
+  rw [generated_filterFunc]
+  cases filterFuncSpec m f <;> rfl
+
 /-- same (database, retention policy) -/
 def samePair (a b : Mapping) : Bool := a.Database == b.Database && a.RetentionPolicy == b.RetentionPolicy
 
